@@ -21,7 +21,7 @@ RULE = ("case = one value (string over the small alphabet, grammar value, digit 
         "numeric/non-numeric keys x @string; non-trivial = the trimmed value starts or ends with a delimiter, or is an integer value in a numeric field; "
         "distinct = distinct value")
 ASSUMPTIONS = ["numeric field keys are the lower-case names listed by the middleware (year, month, volume, number, pages, edition, chapter, issue)"]
-MIN = {"remove_rule": (10000, 100000), "restore_law": (50000, 500000), "reparse": (5000, 50000), "integer_rule": (500, 2000), "no_raise": (50000, 500000)}
+MIN = {"mixed_records": (1000, 20000), "remove_rule": (10000, 100000), "restore_law": (50000, 500000), "reparse": (5000, 50000), "integer_rule": (500, 2000), "no_raise": (50000, 500000)}
 
 ALPHA = ["{", "}", '"', "a", " ", "#", "\\"]
 OPTS = [(d, reuse, ei) for d in ("{", '"') for reuse in (False, True) for ei in (False, True)]
@@ -49,15 +49,28 @@ def cases(tier, seed, shard, nshards):
             yield {"k": "digits", "v": v}
         idx += 1
     r = rng_for(seed, shard, "c10")
-    for _ in range(tier_pick(tier, 8000, 200000) // nshards):
+    for _ in range(tier_pick(tier, 16000, 1000000) // nshards):
         o = grammar.Opts(nest=r.choice([1, 3]))
         v = grammar.value(r, o)
         if r.random() < .3:
             v = r.choice([" ", "\n", "\t"]) + v + r.choice([" ", "\n", ""])
         yield {"k": "str", "v": v}
-    for _ in range(tier_pick(tier, 4000, 100000) // nshards):
+    for _ in range(tier_pick(tier, 8000, 500000) // nshards):
         o = grammar.Opts(nest=r.choice([1, 3]))
         yield {"k": "content", "v": grammar._no_trailing_backslash(grammar._defuse(grammar.body(r, o, 1)))}
+    # entries where only some fields carry a removed-enclosing record (fields added after parsing)
+    recorded = ["{x}", '"x"', "12", "ident", "{a} # {b}", '""', "{}"]
+    contents = ["see Smith, Jones and others", 'he said "hi", twice', "plain", "a {b} c", "x = y", "2019", ""]
+    idx = 0
+    for v1 in recorded:
+        for c in contents:
+            for pos in (0, 1, 2):
+                if idx % nshards == shard:
+                    yield {"k": "mixed", "v1": v1, "c": c, "pos": pos}
+                idx += 1
+    for _ in range(tier_pick(tier, 2000, 100000) // nshards):
+        o = grammar.Opts(nest=1, multiline=False)
+        yield {"k": "mixed", "v1": grammar.value(r, o), "c": grammar._no_trailing_backslash(grammar._defuse(grammar.body(r, o, 1))), "pos": r.randrange(3)}
 
 
 def rule(v):
@@ -119,7 +132,7 @@ def run(mw, lib):
 def check(case, ctx):
     from bibtexparser.middlewares import AddEnclosingMiddleware, RemoveEnclosingMiddleware
     from bibtexparser.splitter import Splitter
-    v = case["v"]
+    v = case.get("v", case.get("v1"))
     out = []
     cls = vclass(v)
     ctx.state(f"{case['k']}:{cls}")
@@ -209,10 +222,65 @@ def check(case, ctx):
                     break
             if out:
                 break
+    elif case["k"] == "mixed":
+        out += mixed(case, ctx)
+        nontriv = True
     if nontriv:
         ctx.nontriv([case["k"], v])
         if ctx.cases % 499 == 0:
             ctx.sample(case)
+    return out
+
+
+def mixed(case, ctx):
+    """A parsed entry (records for its fields) that got new fields afterwards: with reuse on, recorded
+    fields are restored, fields WITHOUT a record get the default enclosing / the integer rule."""
+    from bibtexparser.middlewares import AddEnclosingMiddleware, RemoveEnclosingMiddleware
+    from bibtexparser.model import Field
+    from bibtexparser.splitter import Splitter
+    v1, c, pos = case["v1"], case["c"], case["pos"]
+    ok, bare_quote = balanced(c)
+    if not ok or c.endswith("\\"):
+        ctx.note("content_outside_quantifier")
+        return []
+    out = []
+    for (d, reuse, ei) in OPTS:
+        if not reuse or (d == '"' and bare_quote):
+            continue
+        for inplace in (False, True):
+            lib = build.library([["entry", "article", "k", [["title", v1], ["year", v1]], "raw", 0]])
+            st, lib = run(RemoveEnclosingMiddleware(allow_inplace_modification=True), lib)
+            if st == "raise":
+                return [Violation("raised", f"C10:remove-raised:mixed:{lib.split(':')[0]}", dict(case=case, error=lib))]
+            e = lib.entries[0]
+            e.fields.insert(pos, Field("note", c))
+            e.fields.insert(pos, Field("volume", "7"))
+            st, r = run(AddEnclosingMiddleware(reuse_previous_enclosing=True, enclose_integers=ei, default_enclosing=d,
+                                               allow_inplace_modification=inplace), lib)
+            ctx.ran()
+            ctx.mon("no_raise")
+            ctx.mon("mixed_records")
+            if st == "raise":
+                return [Violation("raised", f"C10:add-raised:mixed:{r.split(':')[0]}", dict(case=case, error=r))]
+            vals = {f.key: f.value for f in r.entries[0].fields}
+            want_note = (d + c + ("}" if d == "{" else '"'))
+            want_vol = "7" if not ei else (d + "7" + ("}" if d == "{" else '"'))
+            if vals["title"] != v1.strip() or vals["year"] != v1.strip():
+                out.append(Violation("restore-law", "C10:restore-law:mixed-records", dict(case=case, opts=[d, reuse, ei], got=vals)))
+                return out
+            if vals["note"] != want_note or vals["volume"] != want_vol:
+                which = "note" if vals["note"] != want_note else "volume"
+                out.append(Violation("unrecorded-field", f"C10:mixed-records:unrecorded-{which}-not-default-enclosed",
+                                     dict(case=case, opts=[d, reuse, ei], got=vals, want_note=want_note, want_volume=want_vol)))
+                return out
+            text = "@a{k, f = " + vals["note"] + "}"
+            st, lib2 = sp.escape(lambda: Splitter(text).split())
+            ctx.ran()
+            good = st == "ok" and len(lib2.blocks) == 1 and sp.block_kind(lib2.blocks[0]) == "entry" and len(lib2.blocks[0].fields) == 1 \
+                and rule(lib2.blocks[0].fields[0].value)[0] == c
+            if not good:
+                out.append(Violation("reparse", f"C10:reparse:mixed-records:default={d}", dict(case=case, text=text)))
+                return out
     return out
 
 
